@@ -170,6 +170,12 @@ def k2_queries(num, tier, only=None):
                 if op in ('erase', 'find', 'clean', 'clear', 'updttl'):
                     for p in (0, 99):
                         qs.append(plan.k2_query(cont, op, 3, p, 'yes', timeout=cfg['k2_timeout']))
+        # the UPDATE path of insert (allow::update) one capacity higher for the three containers whose full insert step gets no
+        # verdict there: re-filing an updated entry among two others (ties, an entry shielded behind a re-filed one) needs
+        # three residents
+        if cont in ('lfuda', 'utmap', 'utset'):
+            for p in (0, 99):
+                qs.append(plan.k2_query(cont, 'insert', 3, p, 'yes', timeout=cfg['k2_timeout'], extra={'ASSUME_UPDATE': 1}, tag='_upd'))
     return qs
 
 
@@ -641,7 +647,7 @@ def run_property(num, tier, seed, only=None):
     cfg = TIERS[tier]
     ev.bounds = {'k2_capacities': cfg['k2_ns'], 'k2_capacities_lru_mru_fifo_rr': cfg['k2_ns_light'], 'k2_histories': 'any length (inductive step from any invariant state)',
                  'k1_capacity': cfg['k1_n'], 'k1_history_length': cfg['k1'], 'per_query_timeout_s': cfg['k2_timeout'],
-                 'outside': 'capacities above the listed ones (and insert at capacity 3 for lfuda/ut_map/ut_set, which does not finish within the per-query limit); K1 histories longer than listed; value types other than uint64_t; '
+                 'outside': 'capacities above the listed ones (and, at capacity 3 for lfuda/ut_map/ut_set, the inserting path of insert - its update path is covered -, which does not finish within the per-query limit); K1 histories longer than listed; value types other than uint64_t; '
                             'allocation failure; clocks beyond 2^40 ticks or decreasing; lfuda ratios other than 1/4, 1/2, 3/4 (1/4 and 3/4: aging step only in the quick tier)'}
     pid = ev.pid
     known, _fixed = load_known()
